@@ -370,11 +370,10 @@ Definition taxable_types : list ttype :=
 Definition routing_total : bool :=
   forallb (fun t => match type_to_sheet t with Some _ => true | None => false end) taxable_types.
 
-Definition data_templates : list trtemplate :=
-  filter (fun tp => negb (str_eqb (tp_name tp) legend_template_name)
-                    && (smem (tp_name tp) keep_names || negb (starts_uu (tp_name tp)))) (tt_template T).
-Definition out_name (tp : trtemplate) : str := if smem (tp_name tp) keep_names then skipn 2 (tp_name tp) else tp_name tp.
-Definition data_sheet_names : list str := map out_name data_templates.
+(** the output file before any fraction is written (legend cells aside), and its data sheets *)
+Definition init0 : list sheetw := omap_filter (init_sheet []) (tt_template T).
+Definition data_sheets0 : list sheetw := filter (fun s => negb (is_legend s)) init0.
+Definition data_sheet_names : list str := map sw_name data_sheets0.
 
 Fixpoint str_nodup (l : list str) : bool := match l with [] => true | x :: t => negb (smem x t) && str_nodup t end.
 Fixpoint z_nodup (l : list Z) : bool := match l with [] => true | x :: t => negb (existsb (Z.eqb x) t) && z_nodup t end.
@@ -392,17 +391,17 @@ Definition map_functional : bool :=
   forallb (fun ty => Nat.leb (length (filter (fun st => ttype_in ty (snd st)) (tt_sheet_to_types T))) 1) all_ttypes
   && str_nodup (map fst (tt_sheet_to_types T)).
 Definition names_ok : bool :=
-  str_nodup data_sheet_names && negb (smem s_Legend data_sheet_names) && str_nodup (tt_sheet_names T)
+  str_nodup (map sw_name init0) && str_nodup (tt_sheet_names T)
   && existsb (fun tp => str_eqb (tp_name tp) legend_template_name) (tt_template T).
 (** the columns of a row are pairwise distinct and inside every data sheet; rows start below the
     template's own cells and inside the template; the row index advances by one; a sheet counts as
     empty exactly when its row index still has the initial value *)
 Definition layout_ok : bool :=
   z_nodup (map fst (tt_cols_always T ++ tt_cols_lot T)) && z_nodup (map fst (tt_cols_always T ++ tt_cols_nolot T))
-  && forallb (fun tp => forallb (fun cf => (0 <=? fst cf) && (fst cf <? tp_cols tp)) (tt_cols_always T ++ tt_cols_lot T ++ tt_cols_nolot T)
-                        && (tp_cols tp <=? 1024)
-                        && forallb (fun rc => (0 <=? fst rc) && (fst rc <? tt_first_row T) && (0 <=? snd rc) && (snd rc <? tp_cols tp)) (tp_cells tp)
-                        && (tt_first_row T <=? tp_rows tp)) data_templates
+  && forallb (fun s => forallb (fun cf => (0 <=? fst cf) && (fst cf <? sw_cols s)) (tt_cols_always T ++ tt_cols_lot T ++ tt_cols_nolot T)
+                       && (sw_cols s <=? 1024)
+                       && forallb (fun w => (0 <=? cw_row w) && (cw_row w <? tt_first_row T) && (0 <=? cw_col w) && (cw_col w <? sw_cols s)) (sw_writes s)
+                       && (tt_first_row T <=? sw_rows s)) data_sheets0
   && (0 <=? tt_first_row T) && (tt_row_step T =? 1) && (tt_empty_mark T =? tt_first_row T).
 Definition tables_ok : bool := targets_exist && kept_are_keys && map_functional && names_ok && layout_ok.
 (** [append_rows] adds at least as many rows as there are fractions of the type *)
